@@ -101,6 +101,24 @@ func checkBuild(c *mon.Case, b c16Build) {
 	}
 	W := st.WOpens
 	writes := st.Writes
+	// the same build once more, writing into a FRESH store while the first store serves reads: every
+	// block of the returned DAG has to be committed to the store the build writes to
+	if !b.Quick {
+		fresh := b.Base.Clone()
+		installOrderHook(c, fresh, b.Name+" (fresh write store, old store serving reads)")
+		var l2 ipld.Link
+		var err2 error
+		if c.Guard(b.Name+" split stores", func() { l2, _, err2 = b.Run(store.SplitLinkSystem(st, fresh)) }) {
+			c.Count("split_store_builds", 1)
+			if err2 != nil {
+				c.Violation("C16|build-error", "%s with separate read and write stores failed: %v", b.Name, err2)
+			} else if l2 == nil || !linkCid(l2).Equals(linkCid(l)) {
+				c.Violation("C16|split-store-result", "%s with separate read and write stores returned %v, first build %v", b.Name, l2, l)
+			} else if _, werr := walkerFor(fresh).TreeSize(linkCid(l2)); werr != nil {
+				c.Violation("C16|returned-link-incomplete", "%s writing into a fresh store returned %s but that store does not hold its whole DAG: %v", b.Name, l2, werr)
+			}
+		}
+	}
 	c.Count("builds", 1)
 	c.Max("max_writes_per_build", int64(W))
 	c.Sig(fmt.Sprintf("%s|ordering|w%s", b.Kind, sizeClass(W)), W >= 2)
